@@ -163,7 +163,8 @@ CtorDictOK(sig, sh, d) ==
     /\ \A j \in 1..sig.n :
           IF j <= sh.npos THEN DictLookup(d, CFNames[j]) = IntC(10 + j)
           ELSE IF CInSeq(CFNames[j], sh.kws) THEN DictLookup(d, CFNames[j]) = IntC(30 + j)
-          ELSE DictLookup(d, CFNames[j]) \in {Absent, IntC(20 + j)}
+          ELSE IF j > sig.r THEN DictLookup(d, CFNames[j]) = IntC(20 + j)    \* bound to its declared default
+          ELSE TRUE
 
 ---------------------------------------------------------------------------
 (* Comprehension lowering as a specification (used for C04's expected lambda; C06 judges *)
